@@ -42,6 +42,13 @@ THEOREMS = [
     "Typedpy.C03.nested_bound_example",
     "Typedpy.C03.stale_reference_example",
     "Typedpy.C03.slice_sort_example",
+    "Typedpy.C03.delitemH_facts",
+    "Typedpy.C03.delitemH_hook",
+    "Typedpy.C03.setattr_field_hook",
+    "Typedpy.C03.stepB_hook",
+    "Typedpy.C03.runB_hook_partial",
+    "Typedpy.C03.refCall_facts",
+    "Typedpy.C03.delitem_skips_hook",
 ]
 RULE = ("mutable (and field-immutable) classes biased to Array/Deque/Map fields incl. nested typed wrappers; start "
         "instance valid; histories of <=6 (quick) / <=20 (thorough) ops drawn from setattr(valid|invalid|None), del, "
@@ -214,12 +221,12 @@ def judge(case, impl, model):
     wf = model.get("implWf", [])
     taken = []     # the field each kept reference (successful take) is bound to
     for i, (op, st) in enumerate(S.kept_steps(case, impl)):
-        if op["op"] == "callRef" and op["i"] < len(taken):
+        if op["op"] == "callRef" and op["i"] < len(taken) and taken[op["i"]]:
             op = dict(op, f=taken[op["i"]])
         site = S.op_site(case, op)
-        n_taken = len(taken)
-        if op["op"] == "take" and st["out"] == "ok":
-            taken.append(op["f"])
+        dead_ref = op["op"] in ("callRef", "assignRef") and (op["i"] >= len(taken) or not taken[op["i"]])
+        if op["op"] == "take":
+            taken.append(op["f"] if st["out"] == "ok" else None)
         if st["out"] == "ok":
             # wf[0] is the start state; blame an op only if the state before it was well-formed
             if i + 1 < len(wf) and wf[i] and not wf[i + 1]:
@@ -227,8 +234,8 @@ def judge(case, impl, model):
                               f"{json.dumps(op)[:200]} succeeded and left the instance invalid: " + json.dumps(st["state"])[:300]))
             # the class's own __validate__ hook (generated: raises when a listed field holds a listed value) must accept
             # the state every successful operation leaves behind
-            held = _hook_rejects(case.get("hook"), st["state"])
-            if held and not _hook_rejects(case.get("hook"), prev):
+            held = _hook_rejects(case.get("hook"), st["state"], case.get("hookNeed"))
+            if held and not _hook_rejects(case.get("hook"), prev, case.get("hookNeed")):
                 fails.append((f"unvalidated:hook:{site}",
                               f"{json.dumps(op)[:200]} succeeded although the class's __validate__ hook rejects the resulting instance "
                               f"({held[0]} == {json.dumps(held[1])[:80]}): " + json.dumps(st["state"])[:300]))
@@ -243,7 +250,7 @@ def judge(case, impl, model):
                 pass    # an AnyOf field currently holding a scalar: the value exposes no such method (not in the claim)
             elif st["out"] == "AttributeError" and op["op"] == "take":
                 pass    # nothing to take a reference to (harness-raised: field unset / holds no wrapper)
-            elif st["out"] == "AttributeError" and op["op"] == "callRef" and op["i"] >= n_taken:
+            elif st["out"] == "AttributeError" and dead_ref:
                 pass    # no such reference (harness-raised)
             elif st["out"] == "AttributeError" and "m" in op and _no_such_method(site):
                 pass    # the native type has no such mutator (deque.sort): nothing was attempted
@@ -259,11 +266,14 @@ def _no_such_method(site):
     return kind in tbl and m not in tbl[kind]
 
 
-def _hook_rejects(hooks, state):
+def _hook_rejects(hooks, state, need=None):
     for f, v in hooks or []:
         for k, cur in state["o"][1]:
             if k == f and cur is not None and dump.canon(cur) == dump.canon(v):
                 return (f, v)
+    for group in need or []:
+        if not any(k in group and cur is not None for k, cur in state["o"][1]):
+            return (group[0], "<none of " + ",".join(group) + " holds a value>")
     return None
 
 
